@@ -7,13 +7,17 @@ VERIF = Path(__file__).resolve().parent.parent
 rows = []
 for meta_file in sorted((VERIF / "seeded").glob("*/meta.json")):
     m = json.loads(meta_file.read_text())
-    notes = (m.get("needs") or "").replace("\n", " ")
+    lines = [l.strip() for l in (m.get("needs") or "").splitlines() if l.strip()]
+    title = (lines[0].lstrip("# ").split(" - ", 1)[-1] if lines else "").replace("|", "/")
+    trig = next((l for l in lines if l.lower().lstrip("-* ").startswith("trigger")), "")
+    trig = trig.lstrip("-* ").replace("|", "/")[:260]
+    note = m.get("note", "")
     caught = [c for c, r in m.get("checks", {}).items() if r["exit"] == 1]
     missed = [c for c, r in m.get("checks", {}).items() if r["exit"] == 0]
     first = next((r["first_fail"] for r in m.get("checks", {}).values() if r.get("first_fail")), "") or ""
-    rows.append((m["seed_id"], m["property"], m.get("repo_tests", ""), m.get("demo_mutated_exit"), ", ".join(caught) or "-",
-                 ", ".join(missed) or "-", first[5:120].replace("|", "/")))
-print("| seed | property | repo tests with change | demo exit with change | caught by | run but not caught by | first failing clause |")
-print("|---|---|---|---|---|---|---|")
+    rows.append((m["seed_id"], title, trig, m.get("repo_tests", "").split(",")[0], m.get("demo_mutated_exit"),
+                 ", ".join(caught) or "-", ", ".join(missed) or "-", (first[5:110].replace("|", "/") + (" " + note if note else "")).strip()))
+print("| seed | change | what it needs to manifest | repo tests with change | demo exit with change | caught by | run, not caught by | first failing clause / note |")
+print("|---|---|---|---|---|---|---|---|")
 for row in rows:
     print("| " + " | ".join(str(x) for x in row) + " |")
